@@ -32,7 +32,18 @@ func main() {
 	noEvidence := flag.Bool("no-evidence", false, "do not write evidence (used for scratch variants)")
 	replay := flag.String("replay", "", "violation file to re-check")
 	goarch := flag.String("goarch", "", "GOARCH to analyse under")
+	genSnap := flag.Bool("gen-snapshot", false, "print the function inventory of -repo as Go source (snapshot_gen.go)")
 	flag.Parse()
+
+	if *genSnap {
+		pr, err := loadProg(*repo, *goarch, false)
+		if err != nil {
+			fmt.Println("ANALYSIS FAILURE:", err)
+			os.Exit(2)
+		}
+		fmt.Print(genSnapshot(pr))
+		return
+	}
 
 	if *replay != "" {
 		b, err := os.ReadFile(*replay)
